@@ -24,6 +24,7 @@ import (
 	"sort"
 	"sync"
 	"sync/atomic"
+	"time"
 	"unsafe"
 
 	"github.com/ysugimoto/falco/v2/zzverif/fuel"
@@ -73,6 +74,9 @@ type Trace struct {
 	AllPoints   int64 // every Point call, including those with one enabled thread
 	Preemptions int
 	Panic       string
+	// Stuck: the running thread made no progress for the backstop time while the run was not finished: it blocks in an
+	// operation the scheduler does not own (channel, condition variable, I/O). The execution is abandoned, not judged.
+	Stuck bool
 }
 
 type access struct {
@@ -104,6 +108,9 @@ var (
 	cur    *sched
 )
 
+// StuckAfterHalfSeconds: how long (in half seconds) an execution may go without reaching a scheduling point before it is abandoned.
+var StuckAfterHalfSeconds = 20
+
 // Active reports whether an exploration run is in progress.
 func Active() bool { return active.Load() }
 
@@ -133,6 +140,33 @@ func Run(prefix []int, maxPoints int, body func()) Trace {
 		body()
 	}()
 	t0.wake <- struct{}{}
+	// backstop, not an oracle: give up on an execution that stops reaching scheduling points
+	go func() {
+		last := int64(-1)
+		idle := 0
+		for {
+			select {
+			case <-s.finished:
+				return
+			case <-time.After(500 * time.Millisecond):
+			}
+			s.mu.Lock()
+			n := s.tr.AllPoints
+			if n == last {
+				idle++
+			} else {
+				idle, last = 0, n
+			}
+			if idle >= StuckAfterHalfSeconds && !s.over {
+				s.over = true
+				s.tr.Stuck = true
+				close(s.finished)
+				s.mu.Unlock()
+				return
+			}
+			s.mu.Unlock()
+		}
+	}()
 	<-s.finished
 	active.Store(false)
 	cur = nil
